@@ -4,3 +4,15 @@ add('C02', 'exploration', 'property-based testing (Hypothesis): round-trip + dif
     'exploration is the right level because the value space is unbounded and the oracle is exact per case.',
     'Trusts vlib/ref9171.py + cborpull.py (written from the RFCs), Hypothesis, cbor2/scapy as installed; EIDs limited to the RFC 9171 dtn/ipn grammar.',
     'DESIGN.md section 3 C02')
+add('C01', 'exploration', 'model-based property testing (Hypothesis operation lists) of two real endpoints on a virtual event loop and simulated TCP, FIFO reference model',
+    'Generated schedules, chunkings, back-pressure and user-call interleavings of two real ContactHandlers are compared with a per-direction FIFO model and an independent RFC 9174 reassembly of the wire; the space of schedules is unbounded, so this is exploration with measured class coverage.',
+    'Trusts the GLib dispatch model (vlib/simloop.py), the non-blocking socket model (vlib/simnet.py), vlib/ref9174.py and the dbus stand-in; timers and TLS are off here.',
+    'DESIGN.md section 3 C01')
+add('C04', 'exploration', 'model-based property testing with a wire monitor automaton fed by an independent RFC 9174 decoder',
+    'Every octet either endpoint writes in generated two-party histories (including terminate() at arbitrary points) is parsed by an independent decoder and run through a sequencing monitor (contact header, SESS_INIT, transfer/segment/ACK rules, MRU, SESS_TERM).',
+    'Same trusted base as C01; XFER_REFUSE/MSG_REJECT never occur between two conforming endpoints, the ACK mapping is skipped if they do.',
+    'DESIGN.md section 3 C04')
+add('C09', 'exploration', 'model-based property testing with fault injection (terminate/close/peer loss at generated and exhaustively enumerated cut points), bounded-step liveness',
+    'terminate()/close()/peer-vanish are injected at generated points and, exhaustively, at every scheduler step of fixed base scenarios; safety clauses are judged on the event and octet logs, liveness as quiescence of a fair drain with both sockets closed.',
+    'Liveness is bounded-step under a fair schedule on the virtual loop, not unbounded liveness; timers off (C14 owns them); abrupt close()/peer loss are exempt from the completion and reporting clauses.',
+    'DESIGN.md section 3 C09')
